@@ -202,11 +202,12 @@ fn sig_of(vs: &[Violation], property: &str, signature: &str) -> bool {
 pub fn minimise(seed: u64, case: &Case, property: &str, signature: &str, budget: usize) -> (Case, usize) {
     let mut best = case.clone();
     let mut used = 0usize;
+    let started = Instant::now();
     // try a candidate program under: the recorded policy with a few schedule seeds, and sequentially
     let mut attempt = |prog: &Program, used: &mut usize| -> Option<Case> {
         let policy = policy_by_name(&case.policy);
         for k in 0..4u64 {
-            if *used >= budget {
+            if *used >= budget || started.elapsed().as_secs() > 60 {
                 return None;
             }
             *used += 1;
